@@ -668,3 +668,29 @@ Proof.
   apply derive_keeps; [|assumption].
   apply (proj1 (carries_all_sound _ _ Hc)). assumption.
 Qed.
+
+(* ------------------------------------------------------------------------------------------ what is compared *)
+
+Lemma assoc_mem_In : forall t c p,
+  assoc_mem t c p = true <-> exists ps, In (c, ps) t /\ In p ps.
+Proof.
+  intros t c p. unfold assoc_mem. rewrite existsb_exists. split.
+  - intros [[c' ps] [Hin H]]. simpl in H. apply andb_true_iff in H. destruct H as [Hc Hp].
+    apply String.eqb_eq in Hc. subst c'. exists ps. split; [assumption|]. apply str_mem_In. assumption.
+  - intros [ps [Hin Hp]]. exists (c, ps). split; [assumption|]. simpl.
+    rewrite String.eqb_refl. simpl. apply str_mem_In. assumption.
+Qed.
+
+Theorem params_covered_sound : forall src compared uncompared,
+  params_covered src compared uncompared = true ->
+  (forall c ps p, In (c, ps) src -> In p ps ->
+     (exists qs, In (c, qs) compared /\ In p qs) \/ (exists qs, In (c, qs) uncompared /\ In p qs)) /\
+  (forall c qs p, In (c, qs) (compared ++ uncompared) -> In p qs -> exists ps, In (c, ps) src /\ In p ps).
+Proof.
+  intros src compared uncompared H. unfold params_covered in H.
+  apply andb_true_iff in H. destruct H as [H1 H2]. rewrite forallb_forall in H1, H2. split.
+  - intros c ps p Hin Hp. specialize (H1 (c, ps) Hin). simpl in H1. rewrite forallb_forall in H1.
+    specialize (H1 p Hp). apply orb_true_iff in H1. destruct H1 as [H|H]; apply assoc_mem_In in H; [left|right]; exact H.
+  - intros c qs p Hin Hp. specialize (H2 (c, qs) Hin). simpl in H2. rewrite forallb_forall in H2.
+    specialize (H2 p Hp). apply assoc_mem_In in H2. exact H2.
+Qed.
